@@ -22,6 +22,380 @@ def llist(xs):
     return "[" + ", ".join(lstr(x) for x in xs) + "]"
 
 
+# ----------------------------------------------------------------------------------------------------------------------
+# SQL formatter ASTs (C05, DESIGN §4.1): the text `db_model.expr_to_sql` returns for the null / logic / order operators,
+# parsed into the fragment of lean/DAVerif/Sql/SqlExpr.lean.  Self-check: every AST is re-rendered and compared with the
+# source text modulo white space; a text outside the fragment is reported (op left to correspondence), never guessed.
+# ----------------------------------------------------------------------------------------------------------------------
+OUT_FMT = os.path.join(VERIF, "lean", "DAVerif", "Generated", "SqlFormatters.lean")
+
+# operator -> (Lean identifier part, DSL text over the symbolic columns, "extend" | "project")
+FORMATTER_OPS = [
+    ("if_else", "if_else", "a.if_else(x, y)", "extend"),
+    ("where", "where", "a.where(x, y)", "extend"),
+    ("maximum", "maximum", "x.maximum(y)", "extend"),
+    ("minimum", "minimum", "x.minimum(y)", "extend"),
+    ("fmax", "fmax", "x.fmax(y)", "extend"),
+    ("fmin", "fmin", "x.fmin(y)", "extend"),
+    ("coalesce", "coalesce", "x.coalesce(y)", "extend"),
+    ("is_null", "is_null", "x.is_null()", "extend"),
+    ("is_in", "is_in", "x.is_in({1, 3})", "extend"),
+    ("mapv", "mapv", 's.mapv({"a": 1, "b": 2}, 0)', "extend"),
+    ("==", "eq", "x == y", "extend"),
+    ("!=", "ne", "x != y", "extend"),
+    ("<", "lt", "x < y", "extend"),
+    ("<=", "le", "x <= y", "extend"),
+    (">", "gt", "x > y", "extend"),
+    (">=", "ge", "x >= y", "extend"),
+    ("and", "and", "a and b", "extend"),
+    ("and3", "and3", "a and b and c", "extend"),
+    ("or", "or", "a or b", "extend"),
+    ("or3", "or3", "a or b or c", "extend"),
+    ("not", "not", "not a", "extend"),
+    ("count", "count", "x.count()", "project"),
+    ("size", "size", "x.size()", "project"),
+    ("mean", "mean", "x.mean()", "project"),
+    ("any", "any", "a.any()", "project"),
+    ("all", "all", "a.all()", "project"),
+    ("any_value", "any_value", "x.any_value()", "project"),
+]
+
+
+class SqlParseError(Exception):
+    pass
+
+
+_TOKEN_RE = None
+
+
+def sql_tokens(text):
+    import re
+    global _TOKEN_RE
+    if _TOKEN_RE is None:
+        _TOKEN_RE = re.compile(r"""\s*(?:(?P<id>"(?:[^"]|"")*")|(?P<str>'(?:[^']|'')*')|(?P<num>\d+(?:\.\d+)?)"""
+                               r"""|(?P<op><=|>=|!=|<>|=|<|>|\(|\)|,)|(?P<word>[A-Za-z_][A-Za-z_0-9]*))""")
+    pos, out = 0, []
+    text = text.rstrip()
+    while pos < len(text):
+        m = _TOKEN_RE.match(text, pos)
+        if not m or m.end() == pos:
+            raise SqlParseError(f"cannot tokenize at {pos}: {text[pos:pos + 20]!r}")
+        pos = m.end()
+        for k in ("id", "str", "num", "op", "word"):
+            if m.group(k) is not None:
+                out.append((k, m.group(k)))
+                break
+    return out
+
+
+class SqlParser:
+    """precedence (low to high): OR, AND, NOT, comparison / IS [NOT] NULL / IN, primary"""
+    KEYWORDS = {"CASE", "WHEN", "THEN", "ELSE", "END", "IS", "NOT", "NULL", "AND", "OR", "IN", "TRUE", "FALSE"}
+
+    def __init__(self, text):
+        self.toks = sql_tokens(text)
+        self.i = 0
+
+    def peek(self, k=0):
+        return self.toks[self.i + k] if self.i + k < len(self.toks) else (None, None)
+
+    def word(self, w, k=0):
+        t = self.peek(k)
+        return t[0] == "word" and t[1].upper() == w
+
+    def take(self):
+        t = self.peek()
+        self.i += 1
+        return t
+
+    def expect_word(self, w):
+        if not self.word(w):
+            raise SqlParseError(f"expected {w} at token {self.i}: {self.peek()}")
+        self.i += 1
+
+    def expect_op(self, o):
+        t = self.peek()
+        if t != ("op", o):
+            raise SqlParseError(f"expected {o!r} at token {self.i}: {t}")
+        self.i += 1
+
+    def parse(self):
+        e = self.p_or()
+        if self.i != len(self.toks):
+            raise SqlParseError(f"trailing tokens from {self.i}: {self.toks[self.i:self.i + 4]}")
+        return e
+
+    def p_or(self):
+        e = self.p_and()
+        while self.word("OR"):
+            self.i += 1
+            e = ("or", e, self.p_and())
+        return e
+
+    def p_and(self):
+        e = self.p_not()
+        while self.word("AND"):
+            self.i += 1
+            e = ("and", e, self.p_not())
+        return e
+
+    def p_not(self):
+        if self.word("NOT"):
+            self.i += 1
+            return ("not", self.p_not())
+        return self.p_cmp()
+
+    def p_cmp(self):
+        e = self.p_primary()
+        while True:
+            t = self.peek()
+            if t[0] == "op" and t[1] in ("=", "!=", "<>", "<", "<=", ">", ">="):
+                self.i += 1
+                e = ("cmp", t[1], e, self.p_primary())
+            elif self.word("IS"):
+                self.i += 1
+                if self.word("NOT"):
+                    self.i += 1
+                    self.expect_word("NULL")
+                    e = ("isnotnull", e)
+                else:
+                    self.expect_word("NULL")
+                    e = ("isnull", e)
+            elif self.word("IN"):
+                self.i += 1
+                self.expect_op("(")
+                items = [self.p_or()]
+                while self.peek() == ("op", ","):
+                    self.i += 1
+                    items.append(self.p_or())
+                self.expect_op(")")
+                e = ("in", e, items)
+            else:
+                return e
+
+    def p_primary(self):
+        k, v = self.peek()
+        if k == "op" and v == "(":
+            self.i += 1
+            e = self.p_or()
+            self.expect_op(")")
+            return ("paren", e)
+        if k == "id":
+            self.i += 1
+            return ("col", v[1:-1].replace('""', '"'))
+        if k == "str":
+            self.i += 1
+            return ("str", v[1:-1].replace("''", "'"))
+        if k == "num":
+            self.i += 1
+            return ("num", v)
+        if k == "word":
+            u = v.upper()
+            if u == "NULL":
+                self.i += 1
+                return ("null",)
+            if u == "TRUE":
+                self.i += 1
+                return ("true",)
+            if u == "FALSE":
+                self.i += 1
+                return ("false",)
+            if u == "CASE":
+                self.i += 1
+                scrut = None
+                if not self.word("WHEN"):
+                    scrut = self.p_or()
+                branches = []
+                while self.word("WHEN"):
+                    self.i += 1
+                    c = self.p_or()
+                    self.expect_word("THEN")
+                    branches.append((c, self.p_or()))
+                if not branches:
+                    raise SqlParseError("CASE without WHEN")
+                els = None
+                if self.word("ELSE"):
+                    self.i += 1
+                    els = self.p_or()
+                self.expect_word("END")
+                return ("case", scrut, branches, els)
+            if u not in self.KEYWORDS and self.peek(1) == ("op", "("):
+                self.i += 2
+                args = []
+                if self.peek() != ("op", ")"):
+                    args.append(self.p_or())
+                    while self.peek() == ("op", ","):
+                        self.i += 1
+                        args.append(self.p_or())
+                self.expect_op(")")
+                return ("call", v, args)
+        raise SqlParseError(f"unexpected token {self.peek()} at {self.i}")
+
+
+def sql_render(e):
+    """AST -> text (the self-check compares it with the source modulo white space)"""
+    k = e[0]
+    if k == "col":
+        return '"' + e[1].replace('"', '""') + '"'
+    if k == "str":
+        return "'" + e[1].replace("'", "''") + "'"
+    if k == "num":
+        return e[1]
+    if k == "null":
+        return "NULL"
+    if k == "true":
+        return "TRUE"
+    if k == "false":
+        return "FALSE"
+    if k == "paren":
+        return "(" + sql_render(e[1]) + ")"
+    if k == "or":
+        return sql_render(e[1]) + " OR " + sql_render(e[2])
+    if k == "and":
+        return sql_render(e[1]) + " AND " + sql_render(e[2])
+    if k == "not":
+        return "NOT " + sql_render(e[1])
+    if k == "cmp":
+        return sql_render(e[2]) + " " + e[1] + " " + sql_render(e[3])
+    if k == "isnull":
+        return sql_render(e[1]) + " IS NULL"
+    if k == "isnotnull":
+        return sql_render(e[1]) + " IS NOT NULL"
+    if k == "in":
+        return sql_render(e[1]) + " IN (" + ", ".join(sql_render(x) for x in e[2]) + ")"
+    if k == "call":
+        return e[1] + "(" + ", ".join(sql_render(x) for x in e[2]) + ")"
+    if k == "case":
+        s = "CASE"
+        if e[1] is not None:
+            s += " " + sql_render(e[1])
+        for c, t in e[2]:
+            s += " WHEN " + sql_render(c) + " THEN " + sql_render(t)
+        if e[3] is not None:
+            s += " ELSE " + sql_render(e[3])
+        return s + " END"
+    raise SqlParseError("render: " + repr(e))
+
+
+def _ws(s):
+    import re
+    return re.sub(r"\s+", "", s)
+
+
+_CMP = {"=": "eq", "!=": "ne", "<>": "ne", "<": "lt", "<=": "le", ">": "gt", ">=": "ge"}
+
+
+def sql_to_lean(e):
+    """AST -> term of DAVerif.Sql3.SqlExpr"""
+    k = e[0]
+    if k == "col":
+        return f"(.col {lstr(e[1])})"
+    if k == "str":
+        return f"(.str {lstr(e[1])})"
+    if k == "num":
+        if "." in e[1]:
+            whole, frac = e[1].split(".")
+            return f"(.num {int(whole + frac)} {10 ** len(frac)})"
+        return f"(.num {int(e[1])} 1)"
+    if k == "null":
+        return ".null"
+    if k == "true":
+        return ".tt"
+    if k == "false":
+        return ".ff"
+    if k == "paren":
+        return f"(.paren {sql_to_lean(e[1])})"
+    if k in ("or", "and"):
+        return f"(.{k} {sql_to_lean(e[1])} {sql_to_lean(e[2])})"
+    if k == "not":
+        return f"(.not {sql_to_lean(e[1])})"
+    if k == "cmp":
+        return f"(.cmp .{_CMP[e[1]]} {sql_to_lean(e[2])} {sql_to_lean(e[3])})"
+    if k == "isnull":
+        return f"(.isNull {sql_to_lean(e[1])})"
+    if k == "isnotnull":
+        return f"(.isNotNull {sql_to_lean(e[1])})"
+    if k == "in":
+        return f"(.inList {sql_to_lean(e[1])} {_lean_args(e[2])})"
+    if k == "call":
+        return f"(.call {lstr(e[1].upper())} {_lean_args(e[2])})"
+    if k == "case":
+        bs = ".nil"
+        for c, t in reversed(e[2]):
+            bs = f"(.cons {sql_to_lean(c)} {sql_to_lean(t)} {bs})"
+        els = ".absent" if e[3] is None else sql_to_lean(e[3])
+        if e[1] is None:
+            return f"(.case {bs} {els})"
+        return f"(.caseOf {sql_to_lean(e[1])} {bs} {els})"
+    raise SqlParseError("to_lean: " + repr(e))
+
+
+def _lean_args(xs):
+    a = ".nil"
+    for x in reversed(xs):
+        a = f"(.cons {sql_to_lean(x)} {a})"
+    return a
+
+
+def extract_formatters():
+    """-> (lean text, report)"""
+    import warnings
+    import data_algebra.SQLite
+    import data_algebra.PostgreSQL
+    from data_algebra.data_ops import TableDescription
+    td = TableDescription(table_name="d", column_names=["x", "y", "z", "a", "b", "c", "s"])
+    dialects = [("sqlite", data_algebra.SQLite.SQLiteModel()), ("postgres", data_algebra.PostgreSQL.PostgreSQLModel())]
+    out = []
+    w = out.append
+    w("import DAVerif.Sql.SqlExpr")
+    w("/- GENERATED by harness/extract_tables.py: `db_model.expr_to_sql` of the real SQLiteModel / PostgreSQLModel on an")
+    w("   Expression over symbolic columns, parsed into `SqlExpr` (self-check: re-rendered text = source text).  Do not edit. -/")
+    w("namespace DAVerif.Gen")
+    w("open DAVerif.Sql3 DAVerif.Sql3.SqlExpr")
+    w("")
+    table, report = [], {"parsed": 0, "outside_fragment": []}
+    for dname, model in dialects:
+        for op, ident, text, where in FORMATTER_OPS:
+            try:
+                with warnings.catch_warnings():
+                    warnings.simplefilter("ignore")
+                    ops = td.extend({"r": text}) if where == "extend" else td.project({"r": text})
+                    sql = model.expr_to_sql(ops.ops["r"], want_inline_parens=False)
+                ast = SqlParser(sql).parse()
+                if _ws(sql_render(ast)) != _ws(sql):
+                    raise SqlParseError(f"round trip differs: {sql_render(ast)!r} vs {sql!r}")
+                term = sql_to_lean(ast)
+            except Exception as e:  # outside the fragment / the code raises: no term, the op is left to correspondence
+                report["outside_fragment"].append(f"{dname}:{op}: {type(e).__name__}: {str(e)[:120]}")
+                continue
+            report["parsed"] += 1
+            w(f"/-- {dname} `{text}`:  {sql} -/")
+            w(f"def fmt_{dname}_{ident} : SqlExpr := {term}")
+            table.append((dname, op, f"fmt_{dname}_{ident}"))
+    w("")
+    w("/-- (dialect, operator) ↦ the formatter's AST -/")
+    w("def formatterTable : List ((String × String) × SqlExpr) := [")
+    w(",\n".join(f"  (({lstr(d)}, {lstr(o)}), {n})" for d, o, n in table))
+    w("]")
+    w("")
+    w("def formatter (dialect op : String) : SqlExpr := (formatterTable.lookup (dialect, op)).getD .null")
+    w("")
+    w("end DAVerif.Gen")
+    return "\n".join(out) + "\n", report
+
+
+def _write_if_changed(path, txt):
+    old = open(path, encoding="utf-8").read() if os.path.exists(path) else None
+    if old != txt:
+        os.makedirs(os.path.dirname(path), exist_ok=True)
+        tmp = path + f".tmp{os.getpid()}"
+        with open(tmp, "w", encoding="utf-8") as f:
+            f.write(txt)
+        os.replace(tmp, path)
+        return True
+    return False
+
+
 def main():
     import data_algebra.expr_rep as er
     import data_algebra.parse_by_lark as pl
@@ -85,7 +459,12 @@ def main():
         with open(tmp, "w", encoding="utf-8") as f:
             f.write(txt)
         os.replace(tmp, OUT)
-    print(json.dumps({"digest": digest, "changed": changed, "catalog_rows": len(rows), "known_ops": len(known)}))
+    ftxt, freport = extract_formatters()
+    fchanged = _write_if_changed(OUT_FMT, ftxt)
+    print(json.dumps({"digest": digest, "changed": changed, "catalog_rows": len(rows), "known_ops": len(known),
+                      "formatters_digest": hashlib.sha256(ftxt.encode("utf-8")).hexdigest()[:16],
+                      "formatters_changed": fchanged, "formatters_parsed": freport["parsed"],
+                      "formatters_outside_fragment": freport["outside_fragment"]}))
 
 
 if __name__ == "__main__":
